@@ -148,6 +148,19 @@ def _service(calls):
         @rpc(Integer, _returns=Integer)
         def falsy(ctx, i):
             return 0
+
+        @rpc(_returns=Pt, _body_style='bare')
+        def bare0(ctx):
+            return Pt(x=4, s='z')
+
+        @rpc(_returns=Array(Integer), _body_style='bare')
+        def bare0arr(ctx):
+            return [4, 5]
+
+        @rpc(_returns=Iterable(Integer), _body_style='bare')
+        def bare0gen(ctx):
+            yield 6
+            yield 7
     return Svc
 
 
@@ -155,7 +168,8 @@ CALLS = [('w0', (), {}), ('w1', (5,), {}), ('w1', (), {'i': 5}), ('w1', (0,), {}
          ('w2', (1, 'a'), {}), ('w2', (1,), {'s': 'a'}), ('w2', (), {'s': 'a', 'i': 1}), ('w2', (0, ''), {}),
          ('w3', (4,), {}), ('ob1', (3,), {}), ('ob1', (), {'i': 3}), ('bare', (), {'x': 1, 's': 'q'}),
          ('bare', (1, 'q'), {}), ('arr', (), {}), ('gen', (), {}), ('boom', (1,), {}), ('boom', (2,), {}),
-         ('ign', (5,), {}), ('none_complex', (), {}), ('falsy', (1,), {})]
+         ('ign', (5,), {}), ('none_complex', (), {}), ('falsy', (1,), {}), ('bare0', (), {}), ('bare0arr', (), {}),
+         ('bare0gen', (), {})]
 
 
 def norm(v):
@@ -204,7 +218,7 @@ def wire_json(c, name, args, kwargs):
 
 @obligation('C18.relational.json', targets=['spyne.server.null:_FunctionCall.__call__', 'spyne.server.null:_cb_sync',
                                             'spyne.application:Application.process_request'],
-            bounded="22 calls over 12 signatures: body styles wrapped / out_bare / bare with a complex argument passed "
+            bounded="25 calls over 15 signatures: body styles wrapped / out_bare / bare with a complex argument passed "
                     "field-wise / empty; 0, 1, 2, 3 return values; array and generator results; Fault, non-Fault, "
                     "Ignored; positional vs keyword; falsy values",
             desc="server.service.m(...) returns (or raises) the same native result that a client obtains by sending the "
